@@ -31,8 +31,11 @@ func outDir() string {
 // relevant reports whether a clause takes part in the check of property prop:
 // untagged clauses are part of every proof that reaches them.
 func relevant(cl *Clause, prop string) bool {
-	if prop == "" || len(cl.Props) == 0 {
+	if prop == "" {
 		return true
+	}
+	if len(cl.Props) == 0 {
+		return !(cl.SkipSweep && (prop == "C18" || prop == "C20"))
 	}
 	for _, p := range cl.Props {
 		if p == prop {
